@@ -338,7 +338,7 @@ theorem dep_spec (cfg : Cfg) (budget : Nat) (c : Cmd) (a : Ans) :
     cases att with
     | flt f r =>
       simp only []
-      exact failcase f _ _ _ (by simp [hl]) (fun hb => benign_ite _ _ _ (hb1 hb))
+      exact failcase f _ _ _ (by split <;> simp [hl]) (fun hb => benign_ite _ _ _ (hb1 hb))
     | ans =>
       simp only []
       split
@@ -407,5 +407,350 @@ theorem dep_exhausted (cfg : Cfg) (budget : Nat) (c : Cmd) (a : Ans) (f : Fault)
         · have hd : depFail cfg budget i g = some (.tagCmd e) := by
             rcases hf with ⟨h, he⟩ | ⟨h, he⟩ <;> subst h <;> subst he <;> simp [depFail, hi]
           rw [hd]
+
+end NfcVerif.Retry
+
+namespace NfcVerif.Retry
+
+/-! ## command programs -/
+
+/-- outcome allowed by the property: a value or a TagCommandError -/
+def Documented : Outcome → Prop
+  | .ok _ => True
+  | .exc e => ∃ m, e = .tagCmd m
+
+/-- the retry loops of Type 1/2 and Type 3 -/
+def LoopKind (k : PrimKind) : Prop := k = .t12 ∨ k = .t3
+/-- primitives of the repaired code that cope with every CommunicationError class -/
+def Robust (k : PrimKind) : Prop := k = .t3 ∨ k = .t4 ∨ k = .raw
+
+/-- side conditions of a call: retry loops have a budget of 1..3 attempts, the bare exchange
+(Type 4 presence check) sits in a `try ... except CommunicationError` -/
+def PrimSide (p : Prim) (ct : Catch) : Prop :=
+  (LoopKind p.kind → 0 < p.budget ∧ p.budget ≤ 3) ∧ (p.kind = .raw → ct = .commErr)
+
+/-- a program over primitives of kinds `S` that raises nothing but TagCommandError by itself -/
+def Clean (S : PrimKind → Prop) : Prog → Prop
+  | .ret _ => True
+  | .crash e => ∃ m, e = .tagCmd m
+  | .reraise => True
+  | .caseErr z n p => Clean S (z ()) ∧ Clean S (n ()) ∧ Clean S (p ())
+  | .call p _ _ ct ok err => S p.kind ∧ PrimSide p ct ∧ Clean S (ok ()) ∧ Clean S (err ())
+
+def PolClean (S : PrimKind → Prop) : Pol → Prop
+  | .goto p => Clean S (p ())
+  | _ => True
+
+def Pol.isRaise : Pol → Bool
+  | .raise => true
+  | _ => false
+
+theorem rawx_safe (c : Cmd) (a : Ans) (w : World) :
+    (∀ e, (rawx c a w).1 = .error e → (∃ m, e = .tagCmd m) ∨ ∃ n, Catch.commErr.catches e = some n)
+    ∧ (Benign w → Benign (rawx c a w).2) := by
+  unfold rawx
+  generalize hp : nextAtt w = p
+  obtain ⟨att, w1⟩ := p
+  have hb1 : Benign w → Benign w1 := fun hb => (benign_next hp hb).1
+  cases att with
+  | flt f r =>
+    refine ⟨?_, fun hb => benign_push _ _ (benign_ite _ _ _ (hb1 hb))⟩
+    intro e he
+    simp only [] at he
+    cases he
+    right
+    cases f <;> exact ⟨_, rfl⟩
+  | ans =>
+    cases a with
+    | ok => exact ⟨(by intro e he; cases he), fun hb => benign_push _ _ (show Benign (w1.apply c) from hb1 hb)⟩
+    | refuse e0 => exact ⟨(by intro e he; cases he; exact Or.inl ⟨_, rfl⟩), fun hb => benign_push _ _ (hb1 hb)⟩
+    | mute => exact ⟨(by intro e he; cases he; exact Or.inr ⟨_, rfl⟩), fun hb => benign_push _ _ (hb1 hb)⟩
+  | short s =>
+    cases a with
+    | ok => exact ⟨(by intro e he; cases he), fun hb => benign_push _ _ (show Benign (w1.apply c) from hb1 hb)⟩
+    | refuse e0 => exact ⟨(by intro e he; cases he; exact Or.inl ⟨_, rfl⟩), fun hb => benign_push _ _ (hb1 hb)⟩
+    | mute => exact ⟨(by intro e he; cases he; exact Or.inr ⟨_, rfl⟩), fun hb => benign_push _ _ (hb1 hb)⟩
+
+/-- repaired code: what a primitive can raise -/
+theorem prim_safe (p : Prim) (c : Cmd) (a : Ans) (w : World) (hl : LoopKind p.kind → 0 < p.budget)
+    (hs : Robust p.kind ∨ Benign w) :
+    (∀ e, (prim Cfg.repaired p c a w).1 = .error e →
+        (∃ m, e = .tagCmd m) ∨ (p.kind = .raw ∧ ∃ n, Catch.commErr.catches e = some n))
+    ∧ (Benign w → Benign (prim Cfg.repaired p c a w).2) := by
+  unfold prim
+  cases hk : p.kind with
+  | t12 =>
+    simp only []
+    have hb : Benign w := by
+      rcases hs with h | h
+      · rw [hk] at h; rcases h with h | h | h <;> cases h
+      · exact h
+    have := loop_safe .t12 p.idm c a p.budget none [] w
+      (fun h0 => by have := hl (by rw [hk]; exact Or.inl rfl); omega) (Or.inr hb)
+    exact ⟨fun e he => Or.inl (this.1 e he), this.2⟩
+  | t3 =>
+    simp only []
+    have := loop_safe .t3 p.idm c a p.budget none [] w
+      (fun h0 => by have := hl (by rw [hk]; exact Or.inr rfl); omega) (Or.inl rfl)
+    exact ⟨fun e he => Or.inl (this.1 e he), this.2⟩
+  | t4 =>
+    simp only []
+    obtain ⟨h1, h2, _⟩ := dep_spec Cfg.repaired p.budget c a (p.budget + 3) 1 false false [] w
+      (by omega) (by intro h; cases h) (by omega) (by simp)
+    refine ⟨fun e he => ?_, h2⟩
+    rcases h1 e he with h | ⟨h, _⟩
+    · exact Or.inl h
+    · cases h
+  | raw =>
+    simp only []
+    have := rawx_safe c a w
+    refine ⟨fun e he => ?_, this.2⟩
+    rcases this.1 e he with h | h
+    · exact Or.inl h
+    · exact Or.inr ⟨trivial, h⟩
+
+/-- **a clean program ends with a value or a TagCommandError**: for every fault script when all
+its primitives are robust ones (Type 3, ISO-DEP, presence check), otherwise for every script of
+the three known classes -/
+theorem run_documented (S : PrimKind → Prop) (robust : Prop) (hR : robust → ∀ k, S k → Robust k) :
+    ∀ (P : Prog) (cur : Int) (w : World), Clean S P → (robust ∨ Benign w) →
+    Documented (run Cfg.repaired P cur w).1 := by
+  intro P
+  induction P with
+  | ret v => intro cur w _ _; simp [run, Documented]
+  | crash e => intro cur w hc _; simp only [run, Documented]; exact hc
+  | reraise => intro cur w _ _; simp [run, Documented]
+  | caseErr z n p ihz ihn ihp =>
+    intro cur w hc hw
+    obtain ⟨hz, hn, hp⟩ := hc
+    unfold run
+    split
+    · exact ihz () cur w hz hw
+    · split
+      · exact ihn () cur w hn hw
+      · exact ihp () cur w hp hw
+  | call p c a ct ok err ihok iherr =>
+    intro cur w hc hw
+    obtain ⟨hk, ⟨hl, hraw⟩, hok, herr⟩ := hc
+    have hs : Robust p.kind ∨ Benign w := hw.imp (fun h => hR h _ hk) id
+    have hps := prim_safe p c a w (fun h => (hl h).1) hs
+    have hw' : robust ∨ Benign (prim Cfg.repaired p c a w).2 := hw.imp id hps.2
+    unfold run
+    generalize hr : prim Cfg.repaired p c a w = r at hps hw'
+    obtain ⟨res, w'⟩ := r
+    cases res with
+    | ok u => exact ihok () cur w' hok hw'
+    | error e =>
+      simp only []
+      rcases hps.1 e rfl with ⟨m, hm⟩ | ⟨hkr, n, hn⟩
+      · split
+        · rename_i n _; exact iherr () n w' herr hw'
+        · simp [Documented, hm]
+      · rw [hraw hkr, hn]
+        exact iherr () n w' herr hw'
+
+theorem polProg_clean (S) (pol : Pol) (next : Unit → Prog) (hpol : PolClean S pol) (hn : Clean S (next ())) :
+    Clean S (polProg pol next ()) := by
+  cases pol <;> simp_all [polProg, Clean, PolClean]
+
+theorem chain_clean (S : PrimKind → Prop) (p : Prim) (ct : Catch) (pol : Pol)
+    (hp : S p.kind) (hl : LoopKind p.kind → 0 < p.budget ∧ p.budget ≤ 3)
+    (hr : p.kind = .raw → ct = .commErr ∧ pol.isRaise = false) (hpol : PolClean S pol) :
+    ∀ (ss : List Step) (fin : Unit → Prog), Clean S (fin ()) → Clean S (chain Cfg.repaired p ct pol ss fin) := by
+  intro ss
+  induction ss with
+  | nil => intro fin h; simpa [chain] using h
+  | cons s ss ih =>
+    intro fin h
+    have hn := ih fin h
+    unfold chain
+    simp only []
+    split
+    · rename_i hc
+      have h12 : S .t12 := by rw [← hc.2]; exact hp
+      refine ⟨h12, ⟨fun _ => ⟨by decide, by decide⟩, fun h => by cases h⟩, ?_, ?_⟩
+      · cases pol <;> simp_all [polProg, Clean, PolClean]
+      · refine ⟨hn, ?_, ?_⟩ <;> simpa [Cfg.repaired] using polProg_clean S pol _ hpol hn
+    · refine ⟨hp, ⟨hl, fun h => ?_⟩, hn, polProg_clean S pol _ hpol hn⟩
+      obtain ⟨h1, h2⟩ := hr h
+      cases pol <;> simp_all [Pol.isRaise]
+
+/-- retry loop -/
+theorem chain_clean_loop (S : PrimKind → Prop) (p : Prim) (ct : Catch) (pol : Pol)
+    (hk : LoopKind p.kind) (hp : S p.kind) (hb : 0 < p.budget) (hb3 : p.budget ≤ 3) (hpol : PolClean S pol)
+    (ss : List Step) (fin : Unit → Prog) (h : Clean S (fin ())) : Clean S (chain Cfg.repaired p ct pol ss fin) :=
+  chain_clean S p ct pol hp (fun _ => ⟨hb, hb3⟩)
+    (fun h => by rcases hk with h' | h' <;> rw [h'] at h <;> cases h) hpol ss fin h
+
+/-- ISO-DEP exchange, any retry budget -/
+theorem chain_clean_t4 (S : PrimKind → Prop) (n : Nat) (b : Bool) (ct : Catch) (pol : Pol)
+    (hp : S .t4) (hpol : PolClean S pol)
+    (ss : List Step) (fin : Unit → Prog) (h : Clean S (fin ())) :
+    Clean S (chain Cfg.repaired ⟨.t4, n, b⟩ ct pol ss fin) :=
+  chain_clean S ⟨.t4, n, b⟩ ct pol hp (fun h => by rcases h with h | h <;> cases h) (fun h => by cases h) hpol ss fin h
+
+/-- bare exchange inside `try ... except CommunicationError: return v` -/
+theorem chain_clean_raw (S : PrimKind → Prop) (n : Nat) (b : Bool) (v : Val)
+    (hp : S .raw) (ss : List Step) (fin : Unit → Prog) (h : Clean S (fin ())) :
+    Clean S (chain Cfg.repaired ⟨.raw, n, b⟩ .commErr (.ret v) ss fin) :=
+  chain_clean S ⟨.raw, n, b⟩ .commErr (.ret v) hp (fun h => by rcases h with h | h <;> cases h)
+    (fun _ => ⟨rfl, rfl⟩) trivial ss fin h
+
+/-! ## log invariant: answered attempts are last -/
+
+def LogOK (log : List Inv) : Prop := ∀ inv ∈ log, InvOK 3 inv.atts
+
+theorem prim_log (cfg : Cfg) (p : Prim) (c : Cmd) (a : Ans) (w : World) (hk : LoopKind p.kind) (hb3 : p.budget ≤ 3)
+    (hw : LogOK w.log) : LogOK (prim cfg p c a w).2.log := by
+  have key : ∀ k, LogOK (loop cfg k p.idm c a p.budget none [] w).2.log := by
+    intro k
+    obtain ⟨f, t, h1, h2, h3, h4⟩ := loop_log cfg k p.idm c a p.budget none [] w
+    rw [h1]
+    intro inv hm
+    rcases List.mem_append.mp hm with h | h
+    · exact hw inv h
+    · simp at h; subst h
+      exact ⟨f, t, by simp, h2, h3, by omega⟩
+  unfold prim
+  rcases hk with h | h <;> rw [h] <;> exact key _
+
+theorem run_log (cfg : Cfg) (S : PrimKind → Prop) (hS : ∀ k, S k → LoopKind k) :
+    ∀ (P : Prog) (cur : Int) (w : World), Clean S P → LogOK w.log → LogOK (run cfg P cur w).2.log := by
+  intro P
+  induction P with
+  | ret v => intro cur w _ h; simpa [run] using h
+  | crash e => intro cur w _ h; simpa [run] using h
+  | reraise => intro cur w _ h; simpa [run] using h
+  | caseErr z n p ihz ihn ihp =>
+    intro cur w hc hw
+    obtain ⟨hz, hn, hp⟩ := hc
+    unfold run
+    split
+    · exact ihz () cur w hz hw
+    · split
+      · exact ihn () cur w hn hw
+      · exact ihp () cur w hp hw
+  | call p c a ct ok err ihok iherr =>
+    intro cur w hc hw
+    obtain ⟨hk, ⟨hl, _⟩, hok, herr⟩ := hc
+    have hl' := prim_log cfg p c a w (hS _ hk) (hl (hS _ hk)).2 hw
+    unfold run
+    generalize hr : prim cfg p c a w = r at hl'
+    obtain ⟨res, w'⟩ := r
+    cases res with
+    | ok u => exact ihok () cur w' hok hl'
+    | error e =>
+      simp only []
+      split
+      · rename_i n _; exact iherr () n w' herr hl'
+      · exact hl'
+
+/-! ## the programs of the operations are clean -/
+
+theorem fixF17_rep : Cfg.repaired.fixF17 = true := rfl
+
+macro "clean_tac" : tactic => `(tactic| repeat' (first
+  | exact trivial
+  | exact Or.inl rfl
+  | exact Or.inr rfl
+  | exact Or.inr (Or.inl rfl)
+  | exact Or.inr (Or.inr rfl)
+  | exact rfl
+  | decide
+  | apply chain_clean_t4
+  | apply chain_clean_raw
+  | apply chain_clean_loop
+  | (show Clean _ _; dsimp only [fin])
+  ))
+
+/-- every operation of every family -/
+theorem prog_clean_all (fam op : String) (l : Phases) (v : Val) (nret : Nat) (P : Prog)
+    (h : prog Cfg.repaired fam op l v nret = some P) : Clean (fun _ => True) P := by
+  unfold prog at h
+  simp only [fixF17_rep, if_true] at h
+  split at h <;> (cases h; clean_tac)
+
+/-- the Type 1/2/3 families only use the retry loops -/
+theorem prog_clean (fam op : String) (l : Phases) (v : Val) (nret : Nat) (P : Prog)
+    (h : prog Cfg.repaired fam op l v nret = some P) (h4 : fam ≠ "t4") : Clean LoopKind P := by
+  unfold prog at h
+  simp only [fixF17_rep, if_true] at h
+  split at h <;> first
+    | exact absurd rfl h4
+    | (cases h; clean_tac)
+
+/-- the Type 3 and Type 4 families only use robust primitives -/
+theorem prog_clean_robust (fam op : String) (l : Phases) (v : Val) (nret : Nat) (P : Prog)
+    (h : prog Cfg.repaired fam op l v nret = some P)
+    (hf : fam = "t3" ∨ fam = "t3std" ∨ fam = "lite" ∨ fam = "t4") : Clean Robust P := by
+  unfold prog at h
+  simp only [fixF17_rep, if_true] at h
+  split at h <;> first
+    | (exfalso; revert hf; decide)
+    | (cases h; clean_tac)
+
+theorem side_t3p (b : Bool) (ct : Catch) : PrimSide (t3p b) ct :=
+  ⟨fun _ => ⟨(by show 0 < 3; decide), (by show 3 ≤ 3; decide)⟩, fun h => by cases h⟩
+
+end NfcVerif.Retry
+namespace NfcVerif.Retry
+section t3format
+variable (S : PrimKind → Prop) (h3 : S .t3) (cfg : Cfg) (t : T3Tag)
+include h3
+
+theorem t3Wipe_clean : ∀ n, Clean S (t3Wipe cfg t n) := by
+  intro n
+  induction n with
+  | zero => exact trivial
+  | succ n ih => unfold t3Wipe; exact ⟨h3, side_t3p _ _, ih, trivial⟩
+
+theorem t3Nbw_clean (wipe : Bool) (nmaxb : Nat) : ∀ fuel nbw, Clean S (t3Nbw cfg t wipe nmaxb fuel nbw) := by
+  intro fuel
+  induction fuel with
+  | zero => intro _; exact trivial
+  | succ fuel ih =>
+    intro nbw
+    have hattr : Clean S (.call (t3p true) (wrTok 0 1) .ok .nothing
+        (fun _ => if wipe then t3Wipe cfg t nmaxb else .ret .true_) (fun _ => .reraise)) := by
+      refine ⟨h3, side_t3p _ _, ?_, trivial⟩
+      show Clean S (if wipe = true then _ else _)
+      split
+      · exact t3Wipe_clean S h3 cfg t nmaxb
+      · exact trivial
+    unfold t3Nbw
+    simp only []
+    split
+    · exact hattr
+    · exact ⟨h3, side_t3p _ _, ih _, hattr⟩
+
+theorem t3Nbr_clean (wipe : Bool) (nmaxb : Nat) : ∀ fuel nbr, Clean S (t3Nbr cfg t wipe nmaxb fuel nbr) := by
+  intro fuel
+  induction fuel with
+  | zero => intro _; exact trivial
+  | succ fuel ih =>
+    intro nbr
+    have hafter : Clean S (.call (t3p true) (rdTok 0 1) .ok .nothing
+        (fun _ => t3Nbw cfg t wipe nmaxb 14 1) (fun _ => .reraise)) :=
+      ⟨h3, side_t3p _ _, t3Nbw_clean S h3 cfg t wipe nmaxb 14 1, trivial⟩
+    unfold t3Nbr
+    simp only []
+    split
+    · exact hafter
+    · exact ⟨h3, side_t3p _ _, ih _, hafter⟩
+
+theorem t3Search_clean (wipe : Bool) : ∀ fuel lo hi, Clean S (t3Search cfg t wipe fuel lo hi) := by
+  intro fuel
+  induction fuel with
+  | zero => intro lo _; unfold t3Search; exact t3Nbr_clean S h3 cfg t wipe lo 16 1
+  | succ fuel ih =>
+    intro lo hi
+    unfold t3Search
+    split
+    · exact ⟨h3, side_t3p _ _, ih _ _, ih _ _⟩
+    · exact t3Nbr_clean S h3 cfg t wipe lo 16 1
+
+theorem t3Format_clean (wipe : Bool) : Clean S (t3Format cfg t wipe) :=
+  ⟨h3, side_t3p _ _, t3Search_clean S h3 cfg t wipe 17 0 0x10000, trivial⟩
+end t3format
 
 end NfcVerif.Retry
